@@ -28,14 +28,25 @@
 (* and TLC checks that the contract implies the property for every configuration   *)
 (* of the given nodes with arbitrary type mixes and every viewpoint.               *)
 (*                                                                                *)
-(* Deliberately not modelled (named deviations):                                   *)
-(*   Dev_MergeCoordinators  Init merges coordinator nodes of the application        *)
-(*       configuration into the stored one (id becomes "-1"); participants that do *)
-(*       so hold a private hybrid configuration and are outside "the same          *)
-(*       configuration".                                                            *)
-(*   Dev_SameIdOtherContent setLastConfiguration ignores a configuration whose id   *)
-(*       equals the current one even if the content differs; here content is a      *)
-(*       function of the id (pub).                                                  *)
+(* Coordinator merge (service.Init / mergeCoordinatorAddrs): a service that boots from a   *)
+(* stored configuration first merges the coordinator nodes of the APPLICATION configuration *)
+(* into it (missing addresses are added to a coordinator both know, a coordinator the      *)
+(* stored one lacks is appended with all its types); if that changed anything the result    *)
+(* is saved and set under the private id "-1" (Merged) and stays until the source delivers  *)
+(* a configuration with another id.  The answers of such a participant must satisfy the     *)
+(* same relations with respect to ITS configuration (priv[p]).                              *)
+(*                                                                                          *)
+(* Agreement across histories: the ring is a function of the sync-node SET alone, so a      *)
+(* participant that reached a configuration by a live Update must answer exactly like one   *)
+(* that was started on it (the code builds a fresh ring for every configuration).           *)
+(*                                                                                          *)
+(* Deliberately not modelled (named deviations):                                            *)
+(*   Dev_SameIdOtherContent setLastConfiguration ignores a configuration whose id equals    *)
+(*       the current one even if the content differs; here content is a function of the id. *)
+(*   Dev_DuplicatePeer      a peer that the stored configuration lists WITHOUT the          *)
+(*       coordinator type but the application configuration lists as coordinator is         *)
+(*       appended a second time by the merge (two entries, one peer id); configurations     *)
+(*       explored here keep a coordinator a coordinator.                                     *)
 EXTENDS Integers, Sequences, FiniteSets, TLC
 
 CONSTANTS Nodes,      \* peer ids that may appear in a configuration
@@ -45,15 +56,26 @@ CONSTANTS Nodes,      \* peer ids that may appear in a configuration
           RF, RF2,    \* replication factors of the tree ring and of the fileV2 ring
           Parts,      \* partition numbers
           NoConf,     \* "no configuration" marker
+          Merged,     \* the private id "-1" of a stored configuration with merged coordinators
           Static,     \* TRUE: every participant starts booted on the first configuration
           PubChoices  \* the sets of published configurations to explore: functions ConfIds -> configuration,
                       \* a configuration being a function from a subset of Nodes to SUBSET Types
 
 Participants == Nodes \cup {Client}
-Types        == {"tree", "fileV2"}      \* a node with neither stands for coordinator/consensus/file/... nodes
+Types        == {"tree", "fileV2", "coord"}   \* a node with none of them stands for consensus/file/... nodes
+\* a configuration: function from a subset of Nodes to [types : SUBSET Types, addrs : set of addresses]
 
-Sync(c)   == {n \in DOMAIN c : "tree"   \in c[n]}
-FileV2(c) == {n \in DOMAIN c : "fileV2" \in c[n]}
+Sync(c)   == {n \in DOMAIN c : "tree"   \in c[n].types}
+FileV2(c) == {n \in DOMAIN c : "fileV2" \in c[n].types}
+Coords(c) == {n \in DOMAIN c : "coord"  \in c[n].types}
+
+\* mergeCoordinatorAddrs(appConfig, lastStored): the stored configuration with the application's coordinators merged in
+Merge(app, st) ==
+    LET add == Coords(app) \ Coords(st)             \* appended as a whole (Dev_DuplicatePeer: not already listed)
+    IN [n \in DOMAIN st \cup add |->
+          IF n \in Coords(app) \cap Coords(st) THEN [types |-> st[n].types, addrs |-> st[n].addrs \cup app[n].addrs]
+          ELSE IF n \in DOMAIN st THEN st[n]
+          ELSE app[n]]
 
 \* nodeconf.ReplKey: the suffix after the LAST dot; the whole id if there is no dot
 ReplKey(id) == id[Len(id)]
@@ -62,13 +84,17 @@ Keys        == {ReplKey(s) : s \in SpaceIds}
 Min(a, b) == IF a < b THEN a ELSE b
 Choices(rf, S) == {m \in SUBSET S : Cardinality(m) = Min(rf, Cardinality(S))}
 
-VARIABLES pub,     \* [ConfIds -> Confs]: the published configurations (fixed)
-          last,    \* [Participants -> ConfIds \cup {NoConf}]: configuration the running service holds
-          stored,  \* [Participants -> ConfIds \cup {NoConf}]: configuration in the participant's local store
+VARIABLES pub,     \* [ConfIds -> configuration]: the published configurations (fixed)
+          last,    \* [Participants -> ConfIds \cup {NoConf, Merged}]: configuration the running service holds
+          stored,  \* [Participants -> ConfIds \cup {NoConf, Merged}]: configuration in the participant's local store
+          priv,    \* [Participants -> configuration or NoConf]: content of the participant's private "-1" configuration
           part,    \* materialised part of the partition function: [Keys -|-> Parts]
           ring,    \* materialised part of the ring function: [<<rf, S, pt>> -|-> SUBSET Nodes]
           obs      \* the most recent answer (a record) or NoConf; forgotten at every life-cycle step
-vars == <<pub, last, stored, part, ring, obs>>
+vars == <<pub, last, stored, priv, part, ring, obs>>
+
+\* content of configuration cid as participant p holds / stores it
+ConfOf(p, cid) == IF cid = Merged THEN priv[p] ELSE pub[cid]
 
 FirstConf == CHOOSE c \in ConfIds : TRUE     \* the application configuration (any fixed one)
 
@@ -76,17 +102,29 @@ Init ==
     /\ pub \in PubChoices
     /\ last = [p \in Participants |-> IF Static THEN FirstConf ELSE NoConf]
     /\ stored = [p \in Participants |-> NoConf]
+    /\ priv = [p \in Participants |-> NoConf]
     /\ part = <<>> /\ ring = <<>> /\ obs = NoConf
 
 Extend(f, k, v) == IF k \in DOMAIN f THEN f ELSE f @@ (k :> v)
 
 (* ---- service life cycle (service.Init / updateConfiguration / restart) ---- *)
-\* Init: the stored configuration if there is one, else the application's (FirstConf)
+\* Init: the application configuration if nothing is stored; else the stored configuration, after the
+\* coordinator merge - and under the private id Merged if the merge changed it (saved and set)
 BootWith(p, appConf) ==
     /\ last[p] = NoConf
-    /\ last' = [last EXCEPT ![p] = IF stored[p] # NoConf THEN stored[p] ELSE appConf]
+    /\ IF stored[p] = NoConf
+       THEN /\ last' = [last EXCEPT ![p] = appConf]
+            /\ UNCHANGED <<stored, priv>>
+       ELSE LET st == ConfOf(p, stored[p])
+                m  == Merge(pub[appConf], st)
+            IN IF m # st
+               THEN /\ last' = [last EXCEPT ![p] = Merged]
+                    /\ stored' = [stored EXCEPT ![p] = Merged]
+                    /\ priv' = [priv EXCEPT ![p] = m]
+               ELSE /\ last' = [last EXCEPT ![p] = stored[p]]
+                    /\ UNCHANGED <<stored, priv>>
     /\ obs' = NoConf
-    /\ UNCHANGED <<pub, stored, part, ring>>
+    /\ UNCHANGED <<pub, part, ring>>
 
 \* updateConfiguration: the source returned configuration c: saved, then set (a fresh ring is built;
 \* nothing of the previous configuration survives)
@@ -97,13 +135,13 @@ Update(p, c) ==
     /\ stored' = [stored EXCEPT ![p] = c]
     /\ last' = [last EXCEPT ![p] = c]
     /\ obs' = NoConf
-    /\ UNCHANGED <<pub, part, ring>>
+    /\ UNCHANGED <<pub, priv, part, ring>>
 
 Restart(p) ==
     /\ last[p] # NoConf /\ ~Static
     /\ last' = [last EXCEPT ![p] = NoConf]
     /\ obs' = NoConf
-    /\ UNCHANGED <<pub, stored, part, ring>>
+    /\ UNCHANGED <<pub, stored, priv, part, ring>>
 
 (* ---- answering a query ---- *)
 RingKey(rf, S, pt) == <<rf, S, pt>>
@@ -113,19 +151,19 @@ RingKey(rf, S, pt) == <<rf, S, pt>>
 Answer(p, s, cid, pt, m, m2, ids, resp) ==
     /\ last[p] # NoConf
     /\ LET k == ReplKey(s)
-           c == pub[cid]
+           c == ConfOf(p, cid)
        IN /\ part' = Extend(part, k, pt)
           /\ ring' = Extend(Extend(ring, RingKey(RF, Sync(c), pt), m), RingKey(RF2, FileV2(c), pt), m2)
           /\ obs' = [p |-> p, space |-> s, conf |-> cid, part |-> pt, members |-> m,
                      nodeIds |-> ids, resp |-> resp, fileV2Ids |-> m2]
-    /\ UNCHANGED <<pub, last, stored>>
+    /\ UNCHANGED <<pub, last, stored, priv>>
 
 \* what the code computes: partition and members from the (shared, deterministic) functions,
 \* NodeIds filters the own account, IsResponsible tests membership, FileV2NodeIds keeps self
 Query(p, s) ==
     /\ last[p] # NoConf
     /\ LET k == ReplKey(s)
-           c == pub[last[p]]
+           c == ConfOf(p, last[p])
        IN \E pt \in Parts, m \in Choices(RF, Sync(c)), m2 \in Choices(RF2, FileV2(c)) :
             /\ k \in DOMAIN part => pt = part[k]
             /\ RingKey(RF, Sync(c), pt) \in DOMAIN ring => m = ring[RingKey(RF, Sync(c), pt)]
@@ -141,8 +179,9 @@ Spec == Init /\ [][Next]_vars
 
 (* ------------------------------ properties ------------------------------ *)
 TypeOK ==
-    /\ last \in [Participants -> ConfIds \cup {NoConf}]
-    /\ stored \in [Participants -> ConfIds \cup {NoConf}]
+    /\ last \in [Participants -> ConfIds \cup {NoConf, Merged}]
+    /\ stored \in [Participants -> ConfIds \cup {NoConf, Merged}]
+    /\ \A p \in Participants : (last[p] = Merged \/ stored[p] = Merged) => priv[p] # NoConf
     /\ \A k \in DOMAIN part : part[k] \in Parts
 
 \* the assumption on the hash ring
@@ -151,7 +190,7 @@ RingContract ==
                              /\ Cardinality(ring[key]) = Min(key[1], Cardinality(key[2]))
 
 HasObs == obs # NoConf
-OConf  == pub[obs.conf]
+OConf  == ConfOf(obs.p, obs.conf)
 
 \* the answer was computed from the configuration the participant currently holds
 AnswerFromCurrentConf == HasObs => obs.conf = last[obs.p]
@@ -190,7 +229,7 @@ Inv == TypeOK /\ RingContract /\ AnswerFromCurrentConf /\ Agreement /\ Responsib
 \* any two ids) for the same sync-node set and the same suffix name the same nodes
 PairAgreement ==
     [][(obs # NoConf /\ obs' # NoConf /\ obs' # obs
-        /\ Sync(pub[obs.conf]) = Sync(pub[obs'.conf])
+        /\ Sync(ConfOf(obs.p, obs.conf)) = Sync(ConfOf(obs'.p, obs'.conf))
         /\ ReplKey(obs.space) = ReplKey(obs'.space))
        => (obs'.members = obs.members /\ obs'.part = obs.part)]_vars
 =============================================================================
